@@ -36,6 +36,22 @@ CHECKS['C16'] = {
     ],
 }
 
+CHECKS['C17'] = {
+    'level': 'exploration',
+    'technique': 'model-based property testing: generated operation histories on muscle::String against a std::string reference model, ASan/UBSan, flatten round-trip and truncation rejection',
+    'level_text': ('Generated-history search with a reference-model oracle after every operation (length, bytes incl. the NUL, strlen, FlattenedSize), operand '
+                   'lengths concentrated on 0,1,2,7,14..17,31..33,64 so nearly every history crosses the 15/16 small-buffer boundary, and self-aliasing '
+                   'operands in a dozen operation kinds. Held = no disagreement and no memory error on everything generated.'),
+    'level_note': 'Trusted: std::string / libc string functions as the ideal byte string; each String method\'s doc comment as its contract. Search needles are non-empty (the doc comment does not decide the empty needle at fromIndex==Length()).',
+    'rule': ('Byte-decoded histories (<=120 ops over 48 kinds) on two String objects compared with std::string models after every op. Non-trivial: an operation moved '
+             'the length across the 15/16 small-buffer boundary in either direction, or had an operand aliasing the String itself. Distinct: hash of the decoded op/argument bytes.'),
+    'assumptions': ['numeric-parse member functions do not exist in util/String.h at this commit; Arg() substitution is checked on templates with single-digit tokens and %-free values'],
+    'targets': [
+        {'name': 'c17_string', 'src': ['harness/C17_string.cpp'], 'quick_n': 6000000, 'thorough_n': 60000000, 'maxlen': 300, 'min_nontrivial': 400000,
+         'class_floors': {'case_crossing_small_buffer_boundary': 100000, 'case_with_aliasing_operand': 100000, 'unflatten_truncated_rejected': 1000}},
+    ],
+}
+
 
 def setup():
     t0 = time.time()
